@@ -29,6 +29,7 @@ RULE = (
     "cell); maps whose maximum is attained in >= 2 cells are counted separately (tied_map_threshold_pairs)"
 )
 ASSUMPTIONS = [
+    "huge family: one 4200x4100 float32 map (> 2**24 cells) with its single maximum at 10 cells of the last rows / columns, rough detector",
     "dtype family: float16 / bfloat16 / float64 single-peak maps with the maximum at each of the last 80 positions of a 320-long axis, rough detector only (integral refinement is not defined for half precision in this code base)",
     "history part: all ordered pairs (thorough: triples) of a small call alphabet chosen to collide in every shape-like cache key, each history in a forked child, compared with a fresh-process result",
     "bounded scope: 'all float maps' = all maps with h,w <= 3 (plus 1xN/Nx1 strips N<=5; thorough: 3x4, 4x3 over 3 levels, 4x4 over 2 levels) over <= 4 value levels {-1,0,0.5,1}; refinement on those maps raw and embedded in 7x7 zero maps, on 9x9 Gaussian bumps (centres on the 1/4-px lattice quick, 1/8-px thorough; sigma 1, 1.5, 2.5; amplitudes 1 and 0.15) and on mirror-symmetric 3x3 bumps",
@@ -579,6 +580,38 @@ def dtype_family(part):
                     break
 
 
+def huge_family(part):
+    """One float32 map with more than 2**24 cells (4200 x 4100: flat indices beyond what float32 represents exactly);
+    the single maximum is placed at cells of the last rows / last column, through find_global_peaks_rough."""
+    import torch
+
+    from sleap_nn.inference import peak_finding as pf
+
+    H, W = 4200, 4100
+    cells = [(W - 1, 4093), (W - 1, 4094), (W - 1, 4095), (W - 1, 4096), (W - 1, H - 2), (W - 1, H - 1), (0, H - 1), (W - 2, H - 1), (2049, 4097), (1, 4093)]
+    maps = torch.zeros((1, 1, H, W), dtype=torch.float32)
+    for x, y in cells:
+        maps[0, 0, y, x] = 1.0
+        case = {"kind": "huge", "H": H, "W": W, "peak": [x, y]}
+        part.count()
+        part.transition()
+        key = f"huge:{x}:{y}"
+        part.state(key)
+        part.nontriv(key)
+        part.sample(case, True)
+        try:
+            pts, vals = pf.find_global_peaks_rough(maps, threshold=0.2)
+            got = (float(pts[0, 0, 0]), float(pts[0, 0, 1]), float(vals[0, 0]))
+        except Exception as e:
+            part.violation(case, f"find_global_peaks_rough raised {type(e).__name__} on a {H}x{W} map: {e}")
+            maps[0, 0, y, x] = 0.0
+            continue
+        maps[0, 0, y, x] = 0.0
+        part.outcome(f"huge:{got[0] == x and got[1] == y}")
+        if got != (float(x), float(y), 1.0):
+            part.violation(case, f"{H}x{W} map with its maximum 1.0 at (x,y)=({x},{y}): reported cell ({got[0]},{got[1]}) value {got[2]}")
+
+
 def run(ctx):
     core.setup_torch()
     # E2 part first (the parent has not called the functions yet): every ordered pair / triple of a small call alphabet
@@ -599,9 +632,16 @@ def run(ctx):
     jobs = core.rotate(jobs, ctx.seed)
     core.pmap(ctx, work, core.shard_list(jobs, max(16, min(len(jobs), 96))))
     dtype_family(ctx)
+    huge_family(ctx)
 
 
 def replay(case):
+    if isinstance(case, dict) and case.get("kind") == "huge":
+        core.setup_torch()
+        part = core.Part()
+        huge_family(part)
+        hits = [m for c, m in part.viol if c.get("peak") == case.get("peak")]
+        return {"violates": bool(hits), "messages": hits[:2]}
     if isinstance(case, dict) and case.get("kind") == "dtype":
         core.setup_torch()
         part = core.Part()
